@@ -132,7 +132,7 @@ fn ver_of(h: &vcf::Header) -> (u32, u32) {
     (h.file_format().major(), h.file_format().minor())
 }
 
-fn enc_hctx(h: &vcf::Header) -> String {
+pub(super) fn enc_hctx(h: &vcf::Header) -> String {
     let ver = ver_of(h);
     let infos = list(h.infos().iter().map(|(k, m)| format!("{}:{}:{}", hx(k), enc_inum(m.number()), enc_ity(m.ty()))).collect());
     let formats = list(h.formats().iter().map(|(k, m)| format!("{}:{}:{}", hx(k), enc_fnum(m.number()), enc_fty(m.ty()))).collect());
@@ -212,7 +212,7 @@ fn enc_rec_words(r: &RecordBuf) -> Vec<String> {
     ]
 }
 
-fn enc_rec(r: &RecordBuf) -> String {
+pub(super) fn enc_rec(r: &RecordBuf) -> String {
     enc_rec_words(r).join("|")
 }
 
@@ -220,7 +220,7 @@ fn enc_rec(r: &RecordBuf) -> String {
 // float tables: the float formatter / parser are parameters of the model (FloatFmt); the harness
 // passes the real library's answers for exactly the floats / tokens of the case.
 
-fn floats_of(r: &RecordBuf) -> Vec<f32> {
+pub(super) fn floats_of(r: &RecordBuf) -> Vec<f32> {
     let mut v = vec![];
     if let Some(q) = r.quality_score() {
         v.push(q);
@@ -257,7 +257,7 @@ fn float_law_ok(f: f32) -> bool {
     plain && (!canon || back == Ok(f.to_bits()))
 }
 
-fn fmt_table(fs: &[f32]) -> String {
+pub(super) fn fmt_table(fs: &[f32]) -> String {
     let mut seen = std::collections::BTreeSet::new();
     let mut out = vec![];
     for f in fs {
@@ -269,7 +269,7 @@ fn fmt_table(fs: &[f32]) -> String {
 }
 
 /// every token of `text` (split on the VCF delimiters) that the real `str::parse::<f32>` accepts
-fn prs_table(text: &str) -> String {
+pub(super) fn prs_table(text: &str) -> String {
     let mut seen = std::collections::BTreeSet::new();
     let mut out = vec![];
     for tok in text.split(|c| matches!(c, '\t' | ';' | '=' | ',' | ':')) {
@@ -301,7 +301,7 @@ fn io_err_variant(e: &std::io::Error) -> String {
 }
 
 /// real writer: the line without its trailing LF, or the error's top-level variant
-fn real_write(h: &vcf::Header, r: &RecordBuf) -> Result<String, String> {
+pub(super) fn real_write(h: &vcf::Header, r: &RecordBuf) -> Result<String, String> {
     let mut w = vcf::io::Writer::new(Vec::new());
     match w.write_variant_record(h, r) {
         Ok(()) => {
@@ -346,7 +346,7 @@ fn fmt_end(r: std::io::Result<Position>) -> String {
 }
 
 /// `e=… l=… end=…/…` for a text line on the real code
-fn real_line_answer(h: &vcf::Header, line: &str) -> (String, Result<RecordBuf, String>, Option<RecordBuf>) {
+pub(super) fn real_line_answer(h: &vcf::Header, line: &str) -> (String, Result<RecordBuf, String>, Option<RecordBuf>) {
     let eager = real_eager(h, line);
     let e = match &eager {
         Ok(r) => enc_rec(r),
@@ -553,14 +553,14 @@ struct FormatDecl {
     declared: bool,
 }
 
-struct Hc {
-    header: vcf::Header,
+pub(super) struct Hc {
+    pub(super) header: vcf::Header,
     ver: (u32, u32),
     infos: Vec<InfoDecl>,   // keys usable in records with the typing the reader will apply
     formats: Vec<FormatDecl>,
 }
 
-fn gen_hctx(rng: &mut Rng) -> Hc {
+pub(super) fn gen_hctx(rng: &mut Rng) -> Hc {
     let ver = *rng.pick(&VERSIONS);
     let mut b = vcf::Header::builder().set_file_format(FileFormat::new(ver.0, ver.1));
     let mut infos = vec![];
@@ -631,7 +631,7 @@ fn gen_hctx(rng: &mut Rng) -> Hc {
     Hc { header: b.build(), ver, infos, formats }
 }
 
-fn gen_record(rng: &mut Rng, hc: &Hc) -> RecordBuf {
+pub(super) fn gen_record(rng: &mut Rng, hc: &Hc) -> RecordBuf {
     let ver = hc.ver;
     let mut r = RecordBuf::default();
     *r.reference_sequence_name_mut() = rng.pick(&["sq0", "chr1", "1", "X", "<sym>", "HLA-A*01:01", "a=b", "chrUn_KI270302v1", "sq%201", "<a.b>"]).to_string();
@@ -841,7 +841,7 @@ fn spoil(rng: &mut Rng, r: &mut RecordBuf) -> &'static str {
 
 /// text-level edits of a written line (correspondence of the eager and lazy readers on lines the
 /// writer would not produce)
-fn mutate_line(rng: &mut Rng, line: &str) -> String {
+pub(super) fn mutate_line(rng: &mut Rng, line: &str) -> String {
     let mut b: Vec<u8> = line.as_bytes().to_vec();
     let ins: &[&[u8]] = &[b"\t", b";", b"=", b",", b":", b".", b"/", b"|", b"%", b"%3B", b"0", b"-", b"+", b"x", b" ", b"\r", b"PASS", b"GT"];
     for _ in 0..1 + rng.below(2) {
@@ -1721,7 +1721,7 @@ const LINE_CORPUS: &[(&str, &str, bool)] = &[
     (H43, "sq0\t1\t.\tA\t.\t.\t.\t.\tGT\t0\t0\r", false),
 ];
 
-fn hc_of_text(text: &str) -> Option<Hc> {
+pub(super) fn hc_of_text(text: &str) -> Option<Hc> {
     let header = real_read_header(text).ok()?;
     let ver = ver_of(&header);
     Some(Hc { header, ver, infos: vec![], formats: vec![] })
@@ -1777,6 +1777,7 @@ fn corpus(ctx: &mut Ctx, only: Option<usize>) {
 pub fn run(ctx: &mut Ctx) {
     if let Some(case) = ctx.replay_only.clone() {
         if super::c09_header::replay(ctx, &case) { return; }
+        if super::c09_lazyany::replay(ctx, &case) { return; }
         let sub: u64 = case.get(1).and_then(|s| s.parse().ok()).unwrap_or(0);
         match case.first().map(|s| s.as_str()) {
             Some("rec") => record_case(ctx, sub, true),
@@ -1801,5 +1802,6 @@ pub fn run(ctx: &mut Ctx) {
         header_case(ctx, ctx.seed.wrapping_mul(1_000_211).wrapping_add(it));
     }
     super::c09_header::run(ctx);
+    super::c09_lazyany::run(ctx);
     ctx.sample(|| "c09 line <header ctx> <float tables> <hex of: sq0 1 . A . . . C=%3B GT 0/1 .> => e=… l=… end=1/1".into());
 }
